@@ -101,6 +101,7 @@ type net struct {
 	failDial bool
 	failFirstWrite bool
 	onSend  func(pkt packet.Generic) // at the instant the client writes a packet
+	onDial  func(s *side)            // a new connection was opened (before Dial returns)
 }
 
 func (n *net) Dial(url string) (transport.Conn, error) {
@@ -117,6 +118,9 @@ func (n *net) Dial(url string) (transport.Conn, error) {
 		}
 	}
 	n.conns = append(n.conns, s)
+	if n.onDial != nil {
+		n.onDial(s)
+	}
 	if n.failFirstWrite {
 		n.failFirstWrite = false
 		s.C.FailSend(1, env.FailBefore)
